@@ -150,6 +150,18 @@ def _check_tree(rec):
     return None
 
 
+def _check_twins(rec):
+    """two csvpaths that differ only by white space INSIDE a literal are two csvpaths: parsed one after the other in one process,
+    each keeps its own literal (white space between tokens is layout, white space inside a string, a regex or a quoted name is data)"""
+    twin = json.loads(json.dumps(rec["tree"]).replace(json.dumps("x \n  y")[1:-1], "x   y").replace(json.dumps("s t")[1:-1], "s\\tt"))
+    for t in (rec["tree"], twin, rec["tree"]):
+        d = _check_tree({"tree": t})
+        if d is not None:
+            d["what"] = d["what"] + " (parsed after a csvpath that differs only inside a literal)"
+            return d
+    return None
+
+
 def _check_layouts(args):
     seed, idx, trees = args
     scratch.scratch_dir() or scratch.enter_scratch()
@@ -266,6 +278,8 @@ def main(tier):
         if len(trees) > 1:
             rep.violation({"kind": "syntax", "what": "the documented grammar is ambiguous: two trees share one token sequence", "tokens": json.loads(toks), "trees": trees[:2]})
     bad = common.pmap(_check_tree, recs, initializer=scratch.enter_scratch)
+    lit = [r for r in recs if '"s t"' in write(r["tree"]) or '"x \n  y"' in write(r["tree"])]
+    bad += common.pmap(_check_twins, lit[:: max(1, len(lit) // (400 if tier == "quick" else 5000))], initializer=scratch.enter_scratch)
     # layouts: sequences of 2-4 emitted trees
     rng = random.Random(common.seed() + 17)
     nl = 300 if tier == "quick" else 6000
